@@ -46,7 +46,7 @@ partial def readNum (acc : Nat) : List Char → Nat × List Char
   | [] => (acc, [])
 
 mutual
-partial def parseVal : List Char → Option (Val × List Char)
+private partial def parseVal : List Char → Option (Val × List Char)
   | [] => none
   | c :: r =>
     if c.isDigit then
